@@ -554,7 +554,7 @@ def dot(a, b, axis=None):
         if len(a.N) < len(b.N):
             raise ShapeMismatch(
                 'Number of the modes of the first tensor must be equal with the second.')
-        if len(axis) != len(b.N) or any([not isinstance(i, int) or i < 0 or i >= len(a.N) for i in axis]) or [a.N[i] for i in sorted(axis)] != b.N:
+        if len(axis) != len(b.N) or any([not isinstance(i, int) or i < 0 or i >= len(a.N) for i in axis]) or len(set(axis)) != len(axis) or [a.N[i] for i in sorted(axis)] != b.N:
             raise ShapeMismatch(
                 'The modes of the first tensor selected by axis must match the modes of the second tensor.')
         # if a.N[axis] != b.N:
